@@ -101,6 +101,24 @@ class TsTD(object):
     def __rsub__(self, other):
         return TsTD(_secs_of_td(other) - self.secs)
 
+    def __pos__(self):
+        return self
+
+    def __abs__(self):
+        return TsTD(S.ite(S.lt(self.secs, 0), S.sub(0, self.secs), self.secs))
+
+    def __mul__(self, k):
+        if isinstance(k, int) and not isinstance(k, bool):
+            return TsTD(self.secs * k)
+        return NotImplemented
+
+    __rmul__ = __mul__
+
+    def __floordiv__(self, other):
+        if isinstance(other, int) and not isinstance(other, bool) and other > 0:
+            return TsTD(S.div(self.secs, other))
+        return NotImplemented
+
     def __bool__(self):
         return bool(self.secs != 0)
 
